@@ -261,15 +261,43 @@ def r3_map_features(ctx):
         unit = kws.get("unit", "")
         if key is None or unit not in SI:
             raise Undecided(f"{f.name}: cannot determine value/unit")
-        # the factor applied
-        p = valnode._parent
+        # the factor applied: the whole product the fitted value is part of
+        top = valnode
+        while isinstance(getattr(top, "_parent", None), ast.BinOp) and \
+                isinstance(top._parent.op, (ast.Mult, ast.Div)):
+            top = top._parent
         factor = 1.0
-        if isinstance(p, ast.BinOp) and isinstance(p.op, ast.Mult):
-            other = p.right if p.left is valnode else p.left
-            factor = literal(other)
-        elif isinstance(p, ast.BinOp) and isinstance(p.op, ast.Div) and \
-                p.left is valnode:
-            factor = 1.0 / literal(p.right)
+        extra = []
+
+        def prod(e, inv):
+            nonlocal factor
+            if e is valnode:
+                if inv:
+                    extra.append("1/" + norm(e))
+                return
+            if isinstance(e, ast.BinOp) and isinstance(e.op, ast.Mult):
+                prod(e.left, inv)
+                prod(e.right, inv)
+            elif isinstance(e, ast.BinOp) and isinstance(e.op, ast.Div):
+                prod(e.left, inv)
+                prod(e.right, not inv)
+            else:
+                e2 = Rf.resolve(e) if not isinstance(e, ast.Constant) else e
+                try:
+                    v = literal(e2)
+                except Exception:
+                    v = None
+                if isinstance(v, (int, float)) and not isinstance(v, bool) \
+                        and v != 0:
+                    factor = factor / v if inv else factor * v
+                else:
+                    extra.append(norm(e2)[:40])
+        prod(top, False)
+        ctx.check(not extra, valnode,
+                  f"{f.name}: fitted '{key}' scaled by a constant only",
+                  f"{f.name} combines the fitted '{key}' with "
+                  f"{', '.join(extra)}: the map no longer shows the fitted "
+                  "value (fitted parameters are stored in measured units)")
         # model unit of that parameter
         units = set()
         for mod in facts.model_modules(ctx.repo):
